@@ -7,7 +7,7 @@ from .. import simdb
 from ..seqschema import pool
 
 DETACHED_OPS = ('d_read', 'd_set', 'd_setmany', 'd_rel', 'd_add', 'd_remove', 'd_clear', 'd_assign', 'd_del', 'd_flush',
-                'd_load', 'd_coll', 'd_mix', 'd_todict', 'd_json')
+                'd_load', 'd_coll', 'd_mix', 'd_todict', 'd_json', 'd_coll_later', 'd_coll')
 
 SESSION_OVER = (core.DatabaseSessionIsOver,)
 DELETED = (core.OperationWithDeletedObjectError,)
@@ -40,7 +40,7 @@ class DetachedMixin(object):
             try:
                 self._detached_op(name, h, mo, e, view, handles, b, c, how, strict, gone)
             finally:
-                if simdb.ctx.g != g0 and name != 'd_mix':     # d_mix opens a later session of its own
+                if simdb.ctx.g != g0 and name not in ('d_mix', 'd_coll_later'):     # those open a later session of their own
                     self.viol('C32', 'database-touched-from-finished-session', 'op=%s' % name,
                               '%s issued %d DB-API call(s)' % (self.cur_op_desc, simdb.ctx.g - g0))
                 if core.local.db2cache:
@@ -191,25 +191,73 @@ class DetachedMixin(object):
                 # load() returned: then it must not have needed the database (checked by the caller through the
                 # DB-API call counter); nothing else to demand
                 pass
-        elif name == 'd_coll':
+        elif name in ('d_coll', 'd_coll_later'):
             if not sets:
                 return
             sa = sets[b % len(sets)]
             pa = getattr(P, sa.name)
             sd = h._vals_.get(pa) if h._vals_ is not None else None
             full = sd is not None and sd.is_fully_loaded
+            form = ('len', 'iter', 'count', 'is_empty', 'bool')[c % 5]
+            # what the snapshot can answer without the database
+            known = full
+            if form == 'count':
+                known = full or (sd is not None and sd.count is not None)
+            elif form == 'is_empty':
+                known = full or (sd is not None and (len(sd) > 0 or sd.count is not None))
+
+            def ask():
+                coll = getattr(h, sa.name)
+                if form == 'len':
+                    return len(coll)
+                if form == 'iter':
+                    return sorted((i._pkval_ for i in coll), key=repr)
+                if form == 'count':
+                    return coll.count()
+                if form == 'is_empty':
+                    return coll.is_empty()
+                return bool(coll)
+
+            self.cur_op_desc += ' .%s %s' % (sa.name, form)
+            g_before = simdb.ctx.g
             try:
-                got = sorted((i._pkval_ for i in getattr(h, sa.name)), key=repr) if c % 2 else len(getattr(h, sa.name))
+                if name == 'd_coll_later':
+                    # the object is asked while the thread is inside a LATER db_session: nothing of that session may
+                    # be used to answer for the finished one
+                    try:
+                        with db_session:
+                            got = ask()
+                    finally:
+                        n_calls = simdb.ctx.g - g_before
+                        if core.local.db2cache:
+                            try:
+                                core.rollback()
+                            except Exception:
+                                pass
+                else:
+                    n_calls = 0
+                    got = ask()
             except Exception as ex:
+                if name == 'd_coll_later' and n_calls:
+                    self.viol('C32', 'database-touched-from-finished-session', 'op=%s|%s' % (name, form),
+                              '%s issued %d DB-API call(s) through a later session' % (self.cur_op_desc, n_calls))
                 # readability is demanded for what a session that ended normally had loaded; objects of a
                 # rolled back / failed session (never saved 'created' objects among them) are in limbo
-                if full and not strict and not gone and how == 'committed':
+                if known and not strict and not gone and how == 'committed':
                     self.viol('C32', 'loaded-collection-not-readable', '%s.%s|exc=%s' % (mo.ent, sa.name, type(ex).__name__),
                               '%s: collection %s was fully loaded but reading it raised %s' % (self.cur_op_desc, sa.name, type(ex).__name__))
+                elif not known and not gone and not isinstance(ex, SESSION_OVER):
+                    self.viol('C32', 'wrong-error-for-unloaded-collection', '%s|exc=%s' % (form, type(ex).__name__),
+                              '%s: the answer needs the database; expected DatabaseSessionIsOver, got %s: %s'
+                              % (self.cur_op_desc, type(ex).__name__, str(ex)[:120]))
                 return
-            if not full and not gone:
+            if name == 'd_coll_later' and n_calls:
+                self.viol('C32', 'database-touched-from-finished-session', 'op=%s|%s' % (name, form),
+                          '%s issued %d DB-API call(s) through a later session and returned %r'
+                          % (self.cur_op_desc, n_calls, got))
+            if not known and not gone:
                 self.viol('C32', 'unloaded-collection-readable', '%s.%s' % (mo.ent, sa.name),
-                          '%s: collection %s was not fully loaded, yet reading it returned %r' % (self.cur_op_desc, sa.name, got))
+                          '%s: collection %s was not loaded far enough to know, yet the call returned %r' % (self.cur_op_desc, sa.name, got))
         elif name == 'd_mix':
             # use the finished-session object as a value inside a later session: must be refused
             cands = [(m, x) for m, x in sorted(view.objs.items()) if not x.deleted and x.stored and x.pk is not None]
